@@ -1,6 +1,6 @@
 (* C18 - a launcher request only matches hosts that satisfy it.
    Statements only; every proof is `exact <lemma>`.                       *)
-From Coq Require Import ZArith List.
+From Coq Require Import ZArith List Permutation.
 From XV Require Import model.Launcher proofs.Launcher_lemmas.
 Import ListNotations.
 Open Scope Z_scope.
@@ -13,6 +13,15 @@ Print Assumptions C18_match_sound.
 Theorem C18_match_iff : forall r h s, match_simple r h = Some s <-> (satisfies r h /\ s = h_prio h).
 Proof. exact match_simple_iff. Qed.
 Print Assumptions C18_match_iff.
+
+(* the "only if" of the property in its own words: the requested GPUs can be assigned to distinct GPUs of the
+   host that are large enough, the host has the CPU memory and the cores, and allows the duration.
+   (C18_match_iff above is exact for the POSITIONAL reading `satisfies` only: see C18_match_positional_refuted) *)
+Theorem C18_match_only_if : forall r h s, match_simple r h = Some s ->
+  offers_gpus r h /\ c_mem (r_cpu r) <= c_mem (h_cpu h) /\ c_cores (r_cpu r) <= c_cores (h_cpu h) /\
+  (0 < h_maxdur h -> r_dur r <= h_maxdur h).
+Proof. exact match_only_if. Qed.
+Print Assumptions C18_match_only_if.
 
 (* alternatives are tried in the order given *)
 Theorem C18_union_first : forall rs h, union_match rs h = first_match rs h 0%nat.
@@ -89,3 +98,12 @@ Theorem C18_registry_objects_simple : forall args hs,
   (forall a, In a args -> fst a = false) -> registry_find_objects args hs = registry_find args hs.
 Proof. exact registry_objects_simple. Qed.
 Print Assumptions C18_registry_objects_simple.
+
+(* match() is not complete for the natural reading: it pairs the i-th smallest request with the i-th GPU in the
+   order the host lists them, so the answer depends on that order (two GPUs of 20 on a host listing 8, 24, 24:
+   refused; listing 24, 24, 8: accepted).  Not required by the property (which is an "only if"). *)
+Theorem C18_match_positional_refuted : exists r h h',
+  Permutation (h_cuda h) (h_cuda h') /\ offers_gpus r h /\ offers_gpus r h' /\
+  match_simple r h = None /\ match_simple r h' <> None.
+Proof. exact match_positional_refuted. Qed.
+Print Assumptions C18_match_positional_refuted.
